@@ -256,7 +256,7 @@ def evaluate(ctx, b, schemas, labels, norders, tag):
         nsub = {str(num[n]): [str(num[s]) for s in v] for n, v in sub_order.items()}
         mlines = ["tree " + G.show_collect([num_tree(t, num) for t in trees]),
                   "mult " + " ".join(str(num[n]) for n in sorted(ms)),
-                  G.enc_schema(nschema, nsub), "collect", "wf"]
+                  G.enc_schema(nschema, nsub), "collect", "wf", "implok"]
         for xi, X in enumerate(subsets):
             xs = " ".join(str(num[n]) for n in X)
             mlines += ["legal " + xs, "eval " + xs]
@@ -280,12 +280,14 @@ def evaluate(ctx, b, schemas, labels, norders, tag):
         # hypotheses of C08_no_crash on the emitted tree: shape of the heads, multiply-inheriting entities are leaves
         if mout[4] != "W 1":
             problems.append(("correspondence", k, {"what": "emitted tree does not have the shape C08_no_crash assumes (headWF): " + tree_line}))
+        if mout[5] != "I 1":
+            problems.append(("correspondence", k, {"what": "hypothesis ImplicitAgree of C08_head_meaning fails for this schema (addImplicitSubs and the declarations disagree on the implicit subtypes)"}))
         leaves_all = {n for t in trees for n in all_nodes(t) if isinstance(n, str)}
         if not ms <= leaves_all:
             problems.append(("correspondence", k, {"what": f"entities with several supertypes {sorted(ms - leaves_all)} occur in no list of {tree_line} (coverage hypothesis of C08_no_crash)"}))
-        legal = [mout[5 + 2 * i] == "L 1" for i in range(len(subsets))]
-        evalv = [mout[6 + 2 * i] == "E 1" for i in range(len(subsets))]
-        mq = mout[5 + 2 * len(subsets):]
+        legal = [mout[6 + 2 * i] == "L 1" for i in range(len(subsets))]
+        evalv = [mout[7 + 2 * i] == "E 1" for i in range(len(subsets))]
+        mq = mout[6 + 2 * len(subsets):]
         for xi, X in enumerate(subsets):
             pl = G.legal(schema, X)
             if pl != legal[xi]:
